@@ -189,9 +189,18 @@ def itemKwargs (d : Env) : List Item → Env
   | .pos _ :: t => itemKwargs d t
   | .kw k v :: t => itemKwargs (dictInsert d (String.ofList k) (getArg v)) t
 
-/-- `GetParams("(" + body)` -/
+/-- `str.expandtabs()` from a given column: pyparsing's `parseString` expands tabs before it
+    matches anything (tab stops every 8 columns, the column restarts after a line break) -/
+def expandTabsFrom : Nat → List Char → List Char
+  | _, [] => []
+  | col, c :: cs =>
+    if c == '\t' then List.replicate (8 - col % 8) ' ' ++ expandTabsFrom (col + (8 - col % 8)) cs
+    else if c == '\n' || c == '\r' then c :: expandTabsFrom 0 cs
+    else c :: expandTabsFrom (col + 1) cs
+
+/-- `GetParams("(" + body)` (the body starts in column 1, after the parenthesis) -/
 def getParams (body : List Char) : Except Err (List PyVal × Env) :=
-  match parseItems body with
+  match parseItems (expandTabsFrom 1 body) with
   | .error e => .error e
   | .ok items =>
     if badOrder items then .error .syntaxError
